@@ -265,8 +265,9 @@ Definition search_law (kind : opk) (s p : bytes) (outs : list res) : bool :=
           let valid := if is_sw then valid_utf8 s && valid_utf8 p else true in
           (* agrees with substring position (starts_with compares raw bytes, the others the lossy strings) *)
           Bool.eqb cs (if is_sw then law p s else law (utf8_lossy p) (utf8_lossy s))
-          (* a case-sensitive match is a case-insensitive match *)
-          && implb valid (implb cs ci)
+          (* a case-sensitive match is a case-insensitive match (starts_with walks chars: the needle must not end
+             inside a char, i.e. be valid UTF-8; the haystack is arbitrary) *)
+          && implb (if is_sw then valid_utf8 p else true) (implb cs ci)
           (* case-insensitive = the same predicate on the lowercased strings *)
           && implb valid (Bool.eqb ci (law dp ds))
       | _, _, _, _ => false
